@@ -21,38 +21,88 @@ def criterion_of(opts):
     return "size" if "-size" in opts else "length" if "-length" in opts else "gas"
 
 
+def _gas(block, st, adj, flat_exp=False, force_warm=None):
+    if force_warm is None:
+        o = evm.observe(block, st, meter="flat_exp" if flat_exp else True)
+    else:
+        o = evm.observe(block, st, meter={"flat_exp": flat_exp, "force_warm": force_warm})
+    return o.gas + adj, o.halt, o.warm_log
+
+
+def _structural_warm(block, states):
+    """per state access of the block (execution order): warm on every state where the block runs to its end,
+    i.e. warm because of how the keys are computed and not because two different values happen to coincide"""
+    flags = None
+    for st in states:
+        o = evm.observe(block, st, meter=True)
+        if o.halt in ("oog", "underflow", "badop"):
+            continue
+        if flags is None:
+            flags = list(o.warm_log)
+        elif len(flags) == len(o.warm_log):
+            flags = [x and y for x, y in zip(flags, o.warm_log)]
+    return flags
+
+
 def compare_costs(orig, emitted, push0, rnd, k):
-    """returns dict(bytes=(a,b), length=(a,b), gas_worse=state|None, gas_better=bool, gas_states=n)"""
+    """returns dict(bytes=(a,b), length=(a,b), gas_worse=(state,g1,g2)|None, gas_better=bool, gas_states=n, ...).
+    Every state on which the emitted block costs more is classified: does the increase disappear when EXP is
+    priced as the tool prices it (flat) and/or when warm/cold is decided by the alias structure of the block
+    instead of the concrete values (the tool keys accessed slots by their symbolic term)?  gas_explained lists
+    the explanations needed when *every* such state is explained; an unexplained state is preferred as witness."""
     out = {"bytes": (costs.block_bytes(orig, push0), costs.block_bytes(emitted, push0)),
            "length": (costs.block_length(orig), costs.block_length(emitted)),
-           "gas_worse": None, "gas_better": False, "gas_states": 0, "gas_equal_all": True}
+           "gas_worse": None, "gas_better": False, "gas_states": 0, "gas_equal_all": True,
+           "gas_worse_states": 0, "gas_explained": None}
     need, _ = evm.stack_effect(orig)
     adj_o, adj_e = costs.zero_push_adjust(orig, push0), costs.zero_push_adjust(emitted, push0)
-    for st in gen.sample_states(rnd, orig, k, need):
-        g1, h1 = costs.metered_gas(orig, st)
+    states = list(gen.sample_states(rnd, orig, k, need))
+    worse = []
+    for st in states:
+        g1, h1, _ = _gas(orig, st, adj_o)
         if h1 in ("oog", "underflow", "badop"):
             continue
-        g2, h2 = costs.metered_gas(emitted, st)
+        g2, h2, _ = _gas(emitted, st, adj_e)
         if h2 in ("oog", "underflow", "badop"):
             continue
-        g1 += adj_o
-        g2 += adj_e
         out["gas_states"] += 1
-        if g2 > g1 and out["gas_worse"] is None:
-            out["gas_worse"] = (st.to_json(), g1, g2)
-            # would the increase disappear if EXP were priced as the tool prices it (flat, one exponent byte)?
-            f1, _ = costs.metered_gas(orig, st, flat_exp=True)
-            f2, _ = costs.metered_gas(emitted, st, flat_exp=True)
-            out["only_exp_pricing"] = (f2 + adj_e) <= (f1 + adj_o)
+        if g2 > g1:
+            worse.append((st, g1, g2))
         if g2 < g1:
             out["gas_better"] = True
         if g1 != g2:
             out["gas_equal_all"] = False
+    if worse:
+        out["gas_worse_states"] = len(worse)
+        generic = [evm.State([rnd.getrandbits(256) for _ in range(need)], rnd.getrandbits(32), False, False) for _ in range(3)]
+        fw_o, fw_e = _structural_warm(orig, states + generic), _structural_warm(emitted, states + generic)
+        explained, unexplained = set(), None
+        for st, g1, g2 in worse:
+            why = None
+            for name, fe, fw in (("exp", True, False), ("alias", False, True), ("exp+alias", True, True)):
+                if fw and (fw_o is None or fw_e is None):
+                    continue
+                a1, _, _ = _gas(orig, st, adj_o, flat_exp=fe, force_warm=fw_o if fw else None)
+                a2, _, _ = _gas(emitted, st, adj_e, flat_exp=fe, force_warm=fw_e if fw else None)
+                if a2 <= a1:
+                    why = name
+                    break
+            if why is None:
+                unexplained = unexplained or (st, g1, g2)
+            else:
+                explained.add(why)
+        st, g1, g2 = unexplained or worse[0]
+        out["gas_worse"] = (st.to_json(), g1, g2)
+        if unexplained is None:
+            out["gas_explained"] = sorted(explained)
+        out["only_exp_pricing"] = unexplained is None and explained == {"exp"}
     if out["gas_states"] == 0:
         # no informative state (all halt out of gas): fall back to the static estimate
         s0, s1 = costs.static_gas(orig, push0), costs.static_gas(emitted, push0)
         out["static_fallback"] = True
         out["gas_worse"] = (None, s0, s1) if s1 > s0 else None
+        if s1 > s0:
+            out["only_exp_pricing"] = costs.static_gas(emitted, push0, flat_exp=True) <= costs.static_gas(orig, push0, flat_exp=True)
         out["gas_better"] = s1 < s0
         out["gas_equal_all"] = s1 == s0
     return out
@@ -122,6 +172,13 @@ def handle(case):
         _count("strictly_cheaper_gas_on_some_state")
     if why == "gas increased on some state" and c.get("only_exp_pricing") and any(n == "EXP" for n, _ in orig):
         why = "gas increased only on states where EXP's exponent is shorter than the one byte the static price assumes"
+    elif why and c.get("gas_explained") and "alias" in " ".join(c["gas_explained"]) and (
+            why == "gas increased on some state" or
+            (why.endswith("another criterion got worse") and c["bytes"][1] <= c["bytes"][0] and c["length"][1] <= c["length"][0])):
+        # the only thing that got worse is gas, and only on states where two differently written keys coincide
+        why = "gas increased only on states where differently written storage keys or addresses coincide " \
+              "(the static gas model keys warm/cold accesses by their symbolic term)"
+        _count("gas_increase_explained_by_aliasing")
     if why:
         res["viols"].append({"fingerprint": "criterion=%s: %s" % (crit, why),
                              "witness": {"in": evm.to_plain_string(orig), "out": evm.to_plain_string(emitted), "opts": opts,
